@@ -38,12 +38,12 @@ impl Log {
             }
         }
 
-        let mut response_body_length = 0;
-        let mut response_body_parts_number = 0;
+        let mut response_body_length : u64 = 0;
+        let mut response_body_parts_number : u64 = 0;
         for content_range in &response.content_range_list {
-            let boxed_parse = content_range.size.parse::<i32>();
+            let boxed_parse = content_range.size.parse::<u64>();
             if boxed_parse.is_ok() {
-                response_body_length += boxed_parse.unwrap();
+                response_body_length = response_body_length.saturating_add(boxed_parse.unwrap());
                 response_body_parts_number += 1;
             }
         }
